@@ -258,6 +258,19 @@ def install(I):
             if default:
                 return default[0]
             raise I.raise_exc("StopIteration")
+        if isinstance(it, SeqVal):
+            # a generator over a sequence (generator expression, zip, ...): single pass - next() takes the first remaining element
+            # and the object then stands for the rest
+            n = B._z(it.length)
+            if not ctx.branch(n > 0):
+                if default:
+                    return default[0]
+                raise I.raise_exc("StopIteration")
+            old = it.elem
+            first = old(0)
+            it.elem = (lambda i, old=old: old(smt.simp(B._z(i) + 1)))
+            it.length = smt.simp(n - 1)
+            return first
         raise Unsupported("next() on non-iterator")
 
     @reg("repr")
@@ -505,6 +518,8 @@ def py_type(I, ctx, v):
         return v.cls
     if isinstance(v, Opaque) and v.attrs.get("cls"):
         return v.attrs["cls"]
+    if isinstance(v, Opaque) and str(v.tag).startswith("array:") and getattr(I, "ndarray_class", None) is not None:
+        return I.ndarray_class
     raise Unsupported(f"type() of {v!r}")
 
 
@@ -1000,6 +1015,24 @@ def objdict_method(I, ctx, view, name):
         return B_(lambda ctx: ListVal(list(o.fields.keys())))
     if name == "__contains__":
         return B_(lambda ctx, k: k in o.fields)
+    if name == "setdefault":
+        def sd(ctx, k, d=None):
+            if k not in o.fields:
+                o.fields[k] = d
+            return o.fields[k]
+        return B_(sd)
+    if name == "pop":
+        def pop(ctx, k, *d):
+            if k in o.fields:
+                return o.fields.pop(k)
+            if d:
+                return d[0]
+            raise ExcVal(I.exc_classes["KeyError"], (k,))
+        return B_(pop)
+    if name == "values":
+        return B_(lambda ctx: ListVal([v for k, v in o.fields.items() if not k.startswith("__excval")]))
+    if name == "clear":
+        return B_(lambda ctx: o.fields.clear())
     return None
 
 
